@@ -4,7 +4,8 @@
    is the compile-correctness theorem of the SQL compiler model for the single-SELECT fragment. *)
 From Coq Require Import List String NArith ZArith Bool Permutation.
 From PDT Require Import Base.StableSort Model.Dtype Model.Value Model.Ops Model.Expr Model.RefSem
-     Model.SqlCompile Model.SqlCompileCheck Proofs.CompareLemmas Proofs.SqlCompileLemmas.
+     Model.SqlCompile Model.SqlCompileCheck Model.PlCompile Model.PlCompileCheck
+     Proofs.CompareLemmas Proofs.SqlCompileLemmas Proofs.PlCompileLemmas.
 From PDTGen Require Import Catalogue.
 Import ListNotations.
 Open Scope list_scope.
@@ -53,6 +54,26 @@ Theorem sql_compile_correct : forall d a c,
 Proof. exact sql_compile_correct_proof. Qed.
 Print Assumptions sql_compile_correct.
 
+(* POLARS COMPILE CORRECTNESS.  Model/PlCompile.pl_compile transcribes the Polars compile_ast: the frame is
+   processed verb by verb, columns are found through name_in_df, a column whose name is taken by a new
+   one is renamed to a suffixed name (rename_overwritten_cols), export selects name_in_df[uid] for the
+   selected uids.  For EVERY database and every AST accepted by pflat_ok (the same verbs as above, with
+   any number of arranges, filters after arranges and slices, and rename onto hidden names) the exported
+   frame is exactly the reference table.  L3 compares select, partition_by, name_in_df and the schema with
+   the real compile_ast on every generated single-source Polars case. *)
+Theorem polars_compile_correct : forall d a st,
+  pl_compile d a = Some st -> pflat_ok d a = true -> pl_export st = export_ref (sem_ref d a).
+Proof. exact pl_compile_correct_proof. Qed.
+Print Assumptions polars_compile_correct.
+
+(* THE PROPERTY for the common fragment: for all data, the SQL statement and the Polars plan that the two
+   backends build for the same pipeline denote the same table - names, column order, rows, row order *)
+Theorem backends_agree : forall d a c st,
+  compile a = Some c -> flat_ok a = true -> pl_compile d a = Some st -> pflat_ok d a = true ->
+  sem_query d c = pl_export st.
+Proof. exact backends_agree_proof. Qed.
+Print Assumptions backends_agree.
+
 (* the hypothesis is satisfiable by a pipeline using every verb of the fragment *)
 Example flat_pipeline :
   let a := SliceHead (Arrange (Filter (Mutate (Summarize (GroupBy (Filter (Mutate
@@ -64,6 +85,7 @@ Example flat_pipeline :
              [EFn Op_greater_than [ECol 5%N; ELit (VInt 2)] false [] []])
              [(ECol 5%N, (true, Some true))]) 2 0 in
   flat_ok a = true
+  /\ pflat_ok [("t", [[VInt 1; VInt 1]; [VInt 1; VInt 2]; [VInt 2; VInt 5]; [VInt 3; VInt (-7)]])] a = true
   /\ f_rows (export_ref (sem_ref [("t", [[VInt 1; VInt 1]; [VInt 1; VInt 2]; [VInt 2; VInt 5]; [VInt 3; VInt (-7)]])] a))
      = [[VInt 2; VInt 6; VInt 12]; [VInt 1; VInt 5; VInt 10]].
-Proof. vm_compute. split; reflexivity. Qed.
+Proof. vm_compute. repeat split; reflexivity. Qed.
